@@ -1,6 +1,6 @@
 """C03 sort order persists through the pipeline and take selects by position."""
 import itertools, json, random, re
-import vlib, relgen, relcheck, sorttrace
+import vlib, relgen, relcheck, sorttrace, flattrace
 from vlib import vh_batch, drv_batch
 from props.c01 import SAFE, FULL
 
@@ -14,13 +14,18 @@ MANIFEST = dict(
          "/ take / the left input of join, reset by aggregate / distinct), take_gets_the_sort_in_effect and "
          "distinct_on_gets_the_sort_in_effect (the ORDER BY in front of every LIMIT / DISTINCT ON is that sort, or the take's embedded "
          "sort), sorts_only_where_needed, cte_provides_sort_columns (a block that becomes a CTE selects every column of the order it "
-         "hands on), readers_see_the_stored_sorting (look-ups leave the store unchanged: any number of readers inherit the same order). "
+         "hands on), readers_see_the_stored_sorting (look-ups leave the store unchanged: any number of readers inherit the same order); "
+         "on the mirror of the Flattener (Model.Flatten): flattener_hands_on_the_sort_in_effect (for any nesting of group / window / join / "
+         "append the sort a transform call carries - the one a take embeds - is the most recent sort of its pipeline, retained by select / "
+         "derive / filter / take / join / append, reset by group), transform_carries_the_sort_in_effect, group_body_sort_is_local, "
+         "sorts_in_front_of_a_group_are_dropped, join_side_is_isolated (repaired by fix 147decc). "
          "Ties: (i) the mirror of range_of_ranges is compared with the LIMIT/OFFSET the real compiler emits for all chains "
          "of up to 3 takes over small bounds; (ii) order-focused generated pipelines are run on SQLite and compared as row SEQUENCES "
          "with the reference semantics whenever the most recent sort in effect is total; (iii) every call of fold_sql_transforms and "
          "every ctes_sorting insert made while compiling a corpus is recorded (cargo feature verif) and replayed through the mirror - "
-         "output transforms, emitted Sorts, widened Select, final sorting and flag must agree exactly.",
-    note="the Flattener (which sort a take embeds) and alias_last_sorting are not mirrored; they are covered by the sequence comparison "
+         "output transforms, emitted Sorts, widened Select, final sorting and flag must agree exactly; (iv) every call of Flattener::fold is "
+         "recorded and replayed through Model.Flatten (kind, partition, frame and sort of every flattened transform call).",
+    note="alias_last_sorting and the lowering of the Flattener's sort fields into RQ (lower_sorts) are not mirrored; they are covered by the sequence comparison "
          "only. The order of rows with equal sort keys is unspecified in SQL: such cases are compared as bags, and takes over ties are excluded.",
     technique="Lean 4 proofs (take composition, sort algebra, sorting-inference state machine = declarative sort in effect) + LIMIT/OFFSET correspondence + replay of "
               "every recorded sorting-inference call + sequence-level differential run on SQLite", ref="4/C03")
@@ -39,7 +44,9 @@ def run(ctx):
         required_theorems=["take_positions", "takes_rangeOfRanges", "takes_compose", "normalize_ok", "limit_offset_ok",
                            "filter_keeps_order", "map_keeps_order", "last_sort_wins", "sort_sorted", "take_sublist", "filter_sublist", "filter_keeps_order_rel", "last_sort_wins_rel", "sort_sorted_rel", "take_compose_rel", "take_positions_rel", "derive_keeps_order_rel", "sort_stable_rel",
                            "infer_sorts_tracks", "take_gets_the_sort_in_effect", "distinct_on_gets_the_sort_in_effect", "sorts_only_where_needed",
-                           "cte_provides_sort_columns", "readers_see_the_stored_sorting", "retained_by_join", "reset_and_replace"])
+                           "cte_provides_sort_columns", "readers_see_the_stored_sorting", "retained_by_join", "reset_and_replace",
+                           "flattener_hands_on_the_sort_in_effect", "transform_carries_the_sort_in_effect", "group_body_sort_is_local",
+                           "sorts_in_front_of_a_group_are_dropped", "join_side_is_isolated"])
     ctx.rule = ("(i) every chain of 1-3 takes with bounds from {open, 1..4} (exhaustive): LIMIT/OFFSET of the real SQL vs the Lean mirror; "
                 "(ii) generated pipelines biased towards sort/take and order-retaining or -resetting transforms x random databases: "
                 "SQLite row sequence vs reference semantics; non-trivial = compared as a sequence with >= 2 rows, or a take chain whose "
@@ -155,6 +162,9 @@ def run(ctx):
     if hooked:
         ctx.obligation("correspondence: fold_sql_transforms = Model.InferSorts.inferBlock on every recorded call; what a From inherits from a CTE = "
                        "Model.InferSorts.Store", n_bad == 0 and n_ev > 0, f"{n_ev} recorded calls / histories replayed, {n_bad} differ")
+        n_fl, n_flbad, _ = flattrace.run_suite(ctx, tprogs + [c.prql for c in cj], "flatten")
+        ctx.obligation("correspondence: Flattener::fold = Model.Flatten.flatten on every recorded call (kind, kept sort key, partition, frame and sort of "
+                       "every transform call, arguments of join / append included)", n_flbad == 0 and n_fl > 0, f"{n_fl} recorded calls replayed, {n_flbad} differ")
     else:
         ctx.count("infer-sorts:skipped (tree has no `verif` hooks)")
         ctx.assumptions.append("the trace hook is not available in this tree: the sorting-inference mirror was not compared this run")
